@@ -44,6 +44,9 @@ type gbCase struct {
 	Sequential bool    `json:"sequential"`
 	Ests       []gbEst `json:"ests"`
 	Hold       *gbHold `json:"hold,omitempty"`
+	// CloseDuringSend: an Accept's message is held inside the broker stream's send goroutine
+	// (hook grpc.stream.send) while the pair is shut down ("h2p": the plugin's stream, "p2h": the host's)
+	CloseDuringSend string `json:"close_during_send,omitempty"`
 }
 
 type gbEstObs struct {
@@ -142,6 +145,26 @@ func runGBCase(c gbCase, bin, tmp string, t *testing.T) map[string]interface{} {
 		defer plugin.VerifSetHook(nil)
 	}
 
+	if c.CloseDuringSend != "" && c.Pair == "inproc" {
+		hold = &gbHold{Gate: "grpc.stream.send", Ms: 500}
+		e := gbEst{ID: 4242, Dir: c.CloseDuringSend}
+		go func() {
+			defer func() { recover() }()
+			if e.Dir == "h2p" {
+				stub.Do(vp.Cmd{Op: "serve", ID: e.ID, S: "4242"})
+			} else {
+				stub.Broker.ServeWho(e.ID, "4242")
+			}
+		}()
+		time.Sleep(150 * time.Millisecond) // the message is now held in the send goroutine
+		cleanup()
+		cleanup = func() {}
+		time.Sleep(900 * time.Millisecond) // the held Send completes (or fails) after the shutdown
+		out["ests"] = []gbEstObs{}
+		out["closed_during_send"] = true
+		out["listener_before_ack"] = true
+		return out
+	}
 	t0 := time.Now()
 	ms := func() int64 { return time.Since(t0).Milliseconds() }
 	obs := make([]gbEstObs, len(c.Ests))
